@@ -1,34 +1,33 @@
 #!/bin/sh
-# usage: tools/confirm_seed.sh <Cxx> [worktree-dir]
-# Independently confirms a seeded change delivered in <worktree>/seeded: the patch applies to a clean
-# checkout of /repo's HEAD, compiles, the pinned suite passes with it, the demo fails with it and
-# passes without it. Prints a one-line verdict and writes <worktree>/seeded/confirm.log.
-ID="$1"; WT="${2:-/tmp/wt/$ID}"
-LOG="$WT/seeded/confirm.log"
+# usage: tools/confirm_seed.sh <Cxx> [deliverables-dir]
+# Independently confirms a seeded change in a FRESH scratch worktree of /repo's HEAD (no git stash: the
+# stash stack is shared between worktrees): the patch applies and compiles, the demo passes without it and
+# fails with it, the pinned suite passes with it. Writes <deliverables-dir>/confirm.log, prints the verdict.
+ID="$1"; DEL="${2:-/tmp/wt/$ID/seeded}"
+WT="/tmp/confirm/$ID"
+LOG="$DEL/confirm.log"
+rm -rf "$WT"; git -C /repo worktree prune; mkdir -p /tmp/confirm
+git -C /repo worktree add -q --detach "$WT" HEAD || exit 3
+cp /repo/Cargo.lock "$WT/"; mkdir -p "$WT/.cargo" "$WT/tests"; printf '[net]\noffline = true\n' > "$WT/.cargo/config.toml"
+cp "$DEL/demo.rs" "$WT/tests/demo_$ID.rs"
+export CARGO_TARGET_DIR="/tmp/wt/$ID/target"
+FEAT=""; grep -q "verif_hooks\|verif_wnaf" "$DEL/demo.rs" && FEAT="--features verif-hooks"
 cd "$WT" || exit 3
-DEMO=$(ls tests/demo_*.rs 2>/dev/null | head -1)
-[ -z "$DEMO" ] && [ -f seeded/demo.rs ] && { mkdir -p tests; cp seeded/demo.rs tests/demo_$ID.rs; DEMO=tests/demo_$ID.rs; }
-DEMONAME=$(basename "$DEMO" .rs)
-FEAT=""
-grep -q "verif_hooks\|verif_wnaf" "$DEMO" 2>/dev/null && FEAT="--features verif-hooks"
 {
-echo "== $ID in $WT  demo=$DEMO feat=$FEAT"
-git checkout -q -- src Cargo.toml 2>/dev/null
-git apply seeded/patch.diff || { echo "VERDICT $ID: patch does not apply"; exit 1; }
-echo "-- demo WITH patch (must fail)"
-cargo test --offline --release $FEAT --test "$DEMONAME" 2>&1 | grep -E "^test result|error(\[|:)" | head -5
-cargo test --offline --release $FEAT --test "$DEMONAME" >/dev/null 2>&1; WITH=$?
+echo "== $ID fresh worktree $WT (HEAD $(git rev-parse --short HEAD)) feat=$FEAT"
 echo "-- demo WITHOUT patch (must pass)"
-git stash -q -- src
-cargo test --offline --release $FEAT --test "$DEMONAME" 2>&1 | grep -E "^test result|error(\[|:)" | head -5
-cargo test --offline --release $FEAT --test "$DEMONAME" >/dev/null 2>&1; WITHOUT=$?
-git stash pop -q
+cargo test --offline --release $FEAT --test "demo_$ID" > "$WT/o1.txt" 2>&1; WITHOUT=$?
+grep -E "^test result|^error" "$WT/o1.txt" | head -4
+git apply "$DEL/patch.diff" || { echo "VERDICT $ID: patch does not apply"; exit 1; }
+git diff --stat | tail -1
+echo "-- demo WITH patch (must fail)"
+cargo test --offline --release $FEAT --test "demo_$ID" > "$WT/o2.txt" 2>&1; WITH=$?
+grep -E "^test result|^error" "$WT/o2.txt" | head -4
 echo "-- pinned suite WITH patch (must pass)"
-mkdir -p /tmp/wt/aside && mv "$DEMO" /tmp/wt/aside/$ID-demo.rs
-cargo test --offline --lib -- --skip bls12_engine_tests --skip g2_curve_tests --skip fq12_field_tests 2>&1 | grep -E "^test result|FAILED|panicked" | head -5
-cargo test --offline --lib -- --skip bls12_engine_tests --skip g2_curve_tests --skip fq12_field_tests >/dev/null 2>&1; SUITE=$?
-mv /tmp/wt/aside/$ID-demo.rs "$DEMO"
+cargo test --offline --lib -- --skip bls12_engine_tests --skip g2_curve_tests --skip fq12_field_tests > "$WT/o3.txt" 2>&1; SUITE=$?
+grep -E "^test result|FAILED|panicked" "$WT/o3.txt" | head -4
 echo "with=$WITH without=$WITHOUT suite=$SUITE"
 if [ $WITH -ne 0 ] && [ $WITHOUT -eq 0 ] && [ $SUITE -eq 0 ]; then echo "VERDICT $ID: CONFIRMED"; else echo "VERDICT $ID: NOT CONFIRMED"; fi
 } > "$LOG" 2>&1
+cd /; git -C /repo worktree remove --force "$WT"
 tail -1 "$LOG"
